@@ -131,7 +131,7 @@ c13::Registrar r1("block", b, BTYPE, run_block), r2("block_solver", b, BTYPE, ru
 
 #if C13_GROUP == 2
 template <template <class> class R> Out run_as_block_with(const Req &r) {
-    typedef make_solver<amg<SB, runtime::coarsening::wrapper, typename relaxation::as_block<BB, R>::type>, runtime::solver::wrapper<SB>> S3;
+    typedef make_solver<amg<SB, runtime::coarsening::wrapper, relaxation::as_block<BB, R>::template type>, runtime::solver::wrapper<SB>> S3;
     return guarded([&](Out &o) {
         Arrays a(*r.A); auto At = std::tie(a.n, a.ptr, a.col, a.val);
         ptree p = c13::base_params(r, true, true, false);
